@@ -256,7 +256,7 @@ def items(tier, rng):
     # wide rolls (width > 100, where the pricing routine's integer scaling changes regime) with exact-fill mixed patterns
     for (W, sizes) in [(120, [20, 50]), (130, [30, 50]), (150, [40, 70])]:
         vecs = [v for v in itertools.product(range(6), repeat=len(sizes)) if any(v)]
-        for vec in rng.sample(vecs, 8 if q else 40) + [tuple([5] * len(sizes))]:
+        for vec in rng.sample(vecs, min(len(vecs), 8 if q else 40)) + [tuple([5] * len(sizes))]:
             out.append({"name": "cg_wide", "harness": "h_cg", "params": {"W": W, "sizes": sizes, "D": 5, "fixed": list(vec)}, "max_paths": 50})
             # (solve_bp is not run on wide rolls: natively it needs 20 s and more per instance there)
     # a coarse gap_tol (0.1 / 0.25) on instances with a piece so small that 1/gap_tol copies fit in a roll: OPTIMAL still has to be the minimum
